@@ -152,7 +152,10 @@ class Ctx:
             st = getattr(x, '__pane_set__', set())
             return {'obj': [ty.__name__, fs, [f.name for f in info.fields if f.name in st]]}
         if ty.__name__ in self.subs:
-            base = SCALARS[self.subs[ty.__name__][1]]
+            bname = self.subs[ty.__name__][1]
+            base = SCALARS[bname]
+            if bname in ('datetime', 'date', 'time'):
+                return {'sub': [ty.__name__, {'op': [bname, x.isoformat()]}]}
             return {'sub': [ty.__name__, self.enc(base(x))]}
         if np is not None and isinstance(x, np.ndarray):
             return {'wrap': ['ndarray', self.enc(x.tolist())]}
@@ -215,6 +218,8 @@ class Ctx:
             members = list(dict.fromkeys(m.value for m in cls.__members__.values()))
             return cls(members[v[1]])
         if k == 'sub':
+            if self.subs[v[0]][1] in ('datetime', 'date', 'time'):
+                return self.subs[v[0]][0].fromisoformat(v[1]['op'][1])
             return self.subs[v[0]][0](self.dec(v[1]))
         if k == 'obj':
             cls = self.classes[v[0]]
